@@ -40,6 +40,9 @@ CUSTOM = {':--c': ':checked, :in-range:dir(rtl)'}
 FGCFG = FG.Cfg(ns_forms=True, prefixes=('svg', 'x'), custom=('--c',), big_nth=True)
 ODD = [None, 0, 5, 3.5, True, False, b'k m', b'\xc3\xa9', ('k', 'm'), ['k', ['m', 'n']], [None, 5], [], (), [b'k'], 10 ** 20]
 ODD_ATTRS = ('class', 'id', 'title', 'data-x', 'unknown', 'rel')
+DETACHED_PROBES = (':indeterminate', ':default', ':checked', ':disabled', ':dir(ltr)', ':lang(en)', ':lang("")', ':root',
+                   ':in-range', ':nth-child(1)', ':only-of-type', ':has(> *)', ':not(:indeterminate)', ':placeholder-shown',
+                   '* > :indeterminate', ':scope', ':-soup-contains("x")', ':read-write', ':empty', ':defined')
 RELEVANT = {
     'range': lambda e: e.name == 'input' and (e.get('min') is not None or e.get('max') is not None),
     'dir-auto': lambda e: str(e.get('dir', '')).lower() == 'auto',
@@ -48,6 +51,33 @@ RELEVANT = {
     'form': lambda e: e.name == 'form',
     'fieldset': lambda e: e.name == 'fieldset',
 }
+
+
+class StepBudget(Exception):
+    pass
+
+
+def run_with_step_budget(fn, budget):
+    import sys
+    count = [0]
+
+    def tracer(frame, event, arg):
+        if event == 'call' and 'soupsieve' in frame.f_code.co_filename:
+            def local(frame, event, arg):
+                if event == 'line':
+                    count[0] += 1
+                    if count[0] > budget:
+                        raise StepBudget()
+                return local
+            return local
+        return None
+    old = sys.gettrace()
+    sys.settrace(tracer)
+    try:
+        fn()
+    finally:
+        sys.settrace(old)
+    return count[0]
 
 
 def gen_case(ch, tier):
@@ -76,7 +106,10 @@ def gen_case(ch, tier):
     if ch.p(0.15) and not recipe.get('detach'):
         recipe['detach'] = [ch.i(0, 3) for _ in range(ch.i(1, 3))]
     return {'tree': recipe, 'flavour': flavour, 'odd': odd, 'sels': sels,
-            'targets': [ch.i(-1, 40) for _ in range(2)]}
+            'targets': [ch.i(-1, 40) for _ in range(2)],
+            'extract': [ch.i(0, 60) for _ in range(ch.i(0, 3))] if ch.p(0.35) else [],
+            'huge_nth': [ch.pick((-1, 1, -3, 2, 0, -10 ** 9)), ch.pick((1, -1)) * 10 ** ch.pick((6, 9, 12, 18, 30, 100)) + ch.i(-3, 3),
+                         ch.pick(('nth-child', 'nth-last-child', 'nth-of-type', 'nth-last-of-type'))] if ch.p(0.15) else None}
 
 
 def build(case):
@@ -146,6 +179,44 @@ def evaluate(case):
                         key == 'named-radio' and 'indeterminate' in text) or (key == 'lang' and 'lang(' in text) or (
                         key == 'form' and 'default' in text) or (key == 'fieldset' and ('abled' in text)):
                     met.add(key)
+    # detached single elements as call targets (soup.new_tag / tag.extract()): every probe, every entry point
+    if els and case.get('extract'):
+        victims = []
+        for idx in case['extract']:
+            e = els[idx % len(els)]
+            if e.parent is not None and not any(e is v for v in victims):
+                victims.append(e.extract())
+        fresh = bs4.BeautifulSoup('', 'html.parser').new_tag('input', attrs={'type': 'radio', 'name': 'g'})
+        victims.append(fresh)
+        for v in victims:
+            for text in DETACHED_PROBES:
+                comp = sv.compile(text, **ckw)
+                for name, fn in (('match', lambda: comp.match(v)), ('closest', lambda: comp.closest(v)),
+                                 ('filter', lambda: comp.filter([v])), ('select', lambda: comp.select(v)),
+                                 ('select_one', lambda: comp.select_one(v))):
+                    n += 1
+                    try:
+                        fn()
+                    except Exception as e:  # noqa: BLE001
+                        fails.append((f'raises-{type(e).__name__}-{where(e)}',
+                                      f'{name}({text!r}) on the detached element {str(v)[:80]!r} raised {type(e).__name__}: {str(e)[:150]}'))
+        met.add('detached-element')
+    # termination: astronomically large An+B terms must not make matching walk one n at a time. Judged by a step
+    # budget (line events inside soupsieve counted by a tracer), never by a clock.
+    if case.get('huge_nth') and els:
+        a_, b_, pseudo = case['huge_nth']
+        text = f':{pseudo}({a_}n{b_:+d})'
+        comp = sv.compile(text)
+        budget = 4000 * (len(els) + 5)
+        n += 1
+        try:
+            steps = run_with_step_budget(lambda: comp.select(doc.top()), budget)
+            met.add('huge-nth')
+        except StepBudget:
+            fails.append(('matching-does-not-terminate-in-step-budget',
+                          f'select({text!r}) on a tree of {len(els)} elements exceeded {budget} traced steps'))
+        except Exception as e:  # noqa: BLE001
+            fails.append((f'raises-{type(e).__name__}-{where(e)}', f'select({text!r}): {e!r:.150}'))
     # non-Tag targets: TypeError and nothing else
     comp = sv.compile('a')
     for bad in (None, 'text', NavigableString('x'), 5, 1.5, b'x', [], {}):
